@@ -65,10 +65,10 @@ m["engines"] = [
  {"name": "I2S", "path": "harness/ + spec/Trace.tla", "serves_properties": ALL,
   "kind_free_text": "implementation -> specification (trace validation): the Rust harness drives the real library and records one ndjson event per call (panics as data, write-ahead file for aborts); TLC validates every event against the TLA+ specification (spec/Trace.tla; env PROP selects the conjuncts of one property); stateful sessions (make/unmake, move chains, walkers) are followed by the specification's own actions"},
  {"name": "S2I", "path": "spec/Families.tla + spec/MC_Families.tla + spec/MC_ChainSim.tla + harness gen-from / exec-scripts",
-  "serves_properties": ["C01","C02","C03","C04","C05","C06","C07","C09","C10","C11","C13","C14","C16","C17","C18","C19"],
-  "kind_free_text": "specification -> implementation: TLC enumerates 26 structured input families (states) and simulates the system specification (behaviours of push/pop/outcome/walker actions); every valid state / behaviour is replayed into the real code, the abstract state is compared after every action and the recorded execution is validated"},
- {"name": "MC", "path": "spec/MC_Impl.tla, spec/MC_FamImpl.tla, spec/MC_Chain.tla (+ MC_ChainProbe.cfg), spec/MC_Notation.tla, spec/SelfTest.tla",
-  "serves_properties": ["C01","C02","C03","C04","C05","C06","C07","C08","C09","C10","C13","C14","C17"],
-  "kind_free_text": "TLC on the specification alone: bounded models checking that the implementation-shaped layer (make/unmake with incremental hash and sets, pin prefilter, generators, chain with repetition table, lazily positioned walker) refines the reference layer; reachability probes against vacuity; notation layer self-consistency; oracle pinned to published perft counts"}]
+  "serves_properties": ["C01","C02","C03","C04","C05","C06","C07","C08","C09","C10","C11","C13","C14","C16","C17","C18","C19"],
+  "kind_free_text": "specification -> implementation: TLC enumerates 35 structured input families (states) and simulates the system specification (behaviours of push/pop/outcome/walker actions); every valid state / behaviour is replayed into the real code, the abstract state is compared after every action and the recorded execution is validated"},
+ {"name": "MC", "path": "spec/MC_Impl.tla, spec/MC_FamImpl.tla, spec/MC_SanImpl.tla (+ MC_UciImpl.cfg), spec/MC_Chain.tla (+ MC_ChainProbe.cfg), spec/MC_Notation.tla, spec/SelfTest.tla",
+  "serves_properties": ["C01","C02","C03","C04","C05","C06","C07","C08","C09","C10","C11","C13","C14","C17"],
+  "kind_free_text": "TLC on the specification alone: bounded models checking that the implementation-shaped layer (make/unmake with incremental hash and sets, pin prefilter, generators, move validator, board validator, outcome calculation, SAN writer/reader, UCI readers, chain with repetition table and push_uci_list, lazily positioned walker) refines the reference layer; reachability probes against vacuity; notation layer self-consistency; oracle pinned to published perft counts"}]
 json.dump(m, open("/verif/MANIFEST.json", "w"), indent=1)
 print("claimed", len(m["checks"]), "not_applicable", len(m["not_applicable"]))
